@@ -40,6 +40,23 @@ PROPS = {
         'level_note': 'Trusted: rustc front end + MIR, the extractor, rules/tables/c16_retained_by_design.json.',
         'technique': 'pairing / must-pass-through / who-may-write rules over resolved MIR (rustc_private driver)',
     },
+    'C02': {
+        'module': 'c02',
+        'explanation': 'Decides, over the MIR of every native (functions reified to NativeFn), opcode handler and GC-visible RefCell '
+                       'borrow: natives establish their arity before reading argument slots; no native unwraps the kind of a '
+                       'program-chosen operand; no RefMut of a heap cell is alive across a may-collect call; opcode/value dispatch '
+                       'tables are total in every sibling; every recursion cycle reachable from run/collect is a recorded one; the '
+                       'value-stack push is capacity-tested in every configuration.',
+        'assumptions': COMMON_ASSUME,
+        'not_decided': ['that each remaining unwrap/expect/index in the VM is unreachable (they depend on the compiler/VM contract, C04)',
+                        'integer-overflow asserts', 'host natives beyond P1/P2'],
+        'level_text': 'Decides clauses P1,P2,P3,P5,P6,P7 for every native, borrow site, dispatch table and call-graph cycle of the current '
+                      'source; full panic-freedom is not decided.',
+        'design_ref': 'DESIGN.md section 1, C02',
+        'level_note': 'Trusted: rustc front end + MIR, the extractor, may-GC reachability over the resolved call graph (external generic '
+                      'code over-approximated by closure arguments and trait impls of mentioned workspace types).',
+        'technique': 'dominator / guard-liveness / exhaustiveness / SCC rules over resolved MIR (rustc_private driver)',
+    },
 }
 
 NOT_APPLICABLE = {
